@@ -203,10 +203,10 @@ class Ctx:
     # ---- build
     def build(self, targets, timeout=1500):
         """make the given .vo targets (paths relative to coq/); full .vo build under a lock"""
-        ensure_makefile()
         os.makedirs(WORK, exist_ok=True)
         with open(os.path.join(WORK, 'build.lock'), 'w') as lk:
             fcntl.flock(lk, fcntl.LOCK_EX)
+            ensure_makefile()
             t = time.time()
             p = subprocess.run(['timeout', str(timeout), 'make', '-C', COQ, '-j16', '-k'] + targets,
                                stdout=subprocess.PIPE, stderr=subprocess.STDOUT, text=True)
@@ -227,7 +227,7 @@ class Ctx:
         path = os.path.join(COQ, vfile)
         src = open(path).read()
         thms = re.findall(r'^\s*(?:Theorem|Lemma|Corollary)\s+([A-Za-z0-9_\']+)', src, re.M)
-        gate = forbidden_in(src)
+        gate = '; '.join(gate_closure(vfile)) or None
         cmd = ['timeout', str(timeout), 'coqc', '-Q', COQ, 'PV', path]
         p = subprocess.run(cmd, stdout=subprocess.PIPE, stderr=subprocess.STDOUT, text=True, cwd=COQ)
         out = strip_noise(p.stdout)
@@ -407,6 +407,39 @@ def forbidden_in(src):
     src = re.sub(r'\(\*.*?\*\)', '', src, flags=re.S)
     m = FORBIDDEN.search(src)
     return ('forbidden construct: ' + m.group(0)) if m else None
+
+
+def gate_closure(vfile):
+    """grep gate over vfile and every PV.* file it (transitively) requires"""
+    seen, todo, bad = set(), [vfile], []
+    while todo:
+        f = todo.pop()
+        if f in seen:
+            continue
+        seen.add(f)
+        p = os.path.join(COQ, f)
+        if not os.path.exists(p):
+            continue
+        raw = open(p).read()
+        g = forbidden_in(raw)
+        if g:
+            bad.append('%s: %s' % (f, g))
+        src = re.sub(r'\(\*.*?\*\)', '', raw, flags=re.S)
+        depth = 0
+        for line in src.splitlines():
+            if re.match(r'\s*Section\b', line):
+                depth += 1
+            elif re.match(r'\s*End\b', line) and depth > 0:
+                depth -= 1
+            elif depth == 0 and re.match(r'\s*(Variable|Variables|Hypothesis|Hypotheses|Context)\b', line):
+                bad.append('%s: section-less %s' % (f, line.strip()[:40]))
+        for m in re.finditer(r'From\s+PV\s+Require\s+(?:Import|Export)?\s*([^.]*(?:\.[A-Za-z_][^.\s]*)*)\s*\.', src):
+            for mod in m.group(1).split():
+                todo.append(mod.replace('.', '/') + '.v')
+        for m in re.finditer(r'Require\s+(?:Import|Export)\s+((?:PV\.[A-Za-z0-9_.]+\s*)+)\.', src):
+            for mod in m.group(1).split():
+                todo.append(mod[3:].replace('.', '/') + '.v')
+    return bad
 
 
 def gate_all():
